@@ -38,8 +38,10 @@ def _primitive_atoms(a, acc):
         acc.append(a)
 
 
-def normalize_results(S):
-    """Replace opaque call results ('res', id) by a description of the call so that two summaries are comparable."""
+def normalize_results(S, fmap=None):
+    """Replace opaque call results ('res', id) by a description of the call so that two summaries are comparable.
+    fmap renames the receiver's private constructor-bound fields to the parameter they store."""
+    fmap = fmap or {}
     table = {}
     for e in S.events:
         if e.kind == "call" and e.result is not None and isinstance(e.result, tuple) and e.result[0] == "res":
@@ -67,7 +69,10 @@ def normalize_results(S):
                 memo[v] = out
                 return out
             if v and v[0] == "fld" and len(v) == 4:
-                return ("fld", norm(v[1], depth), v[2], 0 if v[3] == 0 else 1)
+                fname = v[2]
+                if fmap and v[1] == ("param", "self") and fname in fmap:
+                    fname = fmap[fname]
+                return ("fld", norm(v[1], depth), fname, 0 if v[3] == 0 else 1)
             if v and v[0] in ("lambda", "opaque") :
                 return (v[0],)
             if v and v[0] == "loopmix":
@@ -129,9 +134,10 @@ def _first_open_ite(v, g):
 
 
 class Behaviour(object):
-    def __init__(self, S, observe_self_fields=True):
+    def __init__(self, S, observe_self_fields=True, fmap=None):
         self.S = S
-        self.norm = normalize_results(S)
+        self.fmap = fmap or {}
+        self.norm = normalize_results(S, self.fmap)
         self.effects = []
         fnq = S.fn.qual
         for e in S.events:
@@ -230,9 +236,26 @@ class Behaviour(object):
             loops = tuple((canon(self.norm(l.iter)) if not l.is_while else ("while",), tuple(sorted((canon(self.norm(a)), p) for a, p in l.filter))) for l in e.loops)
             r = lambda v: self._val(v, g)
             if kind == "write":
-                effs.append(("write", loops, r(e.obj), e.field, r(e.value)))
+                effs.append(("write", loops, r(e.obj), self.fmap.get(e.field, e.field) if e.obj == ("param", "self") else e.field, r(e.value)))
             elif kind == "store":
-                effs.append(("store", loops, r(e.base), r(e.index), e.aug, r(e.value)))
+                aug, val = e.aug, r(e.value)
+                if aug is None:
+                    # row[i] = row[i] + x  is the increment  row[i] += x
+                    try:
+                        cell = sym.restrict(("sub", self.norm(e.base), self.norm(e.index)), g)
+                        raw = sym.restrict(self.norm(e.value), g)
+                        if sym.contains(raw, lambda n: n[0] == "sub" and canon(n) == canon(cell)):
+                            d = sym.to_rat(("-", raw, cell))
+                            if not any(canon(a) == canon(cell) for a in d.atoms()):
+                                aug, val = "+", d.canon()
+                    except Exception:
+                        pass
+                elif aug == "+":
+                    try:
+                        val = sym.to_rat(sym.restrict(self.norm(e.value), g)).canon()
+                    except Exception:
+                        pass
+                effs.append(("store", loops, r(e.base), r(e.index), aug, val))
             elif kind == "call":
                 tgt = r(e.recv) if e.recv is not None else (r(e.extra) if isinstance(e.extra, tuple) else None)
                 effs.append(("call", loops, tgt, e.name, tuple(r(a) for a in (e.args or ())), tuple(sorted((k, r(v)) for k, v in (e.kwargs or {}).items()))))
@@ -332,14 +355,15 @@ def feasible(assign):
     return True
 
 
-def compare(S_code, S_ref, limit=14, ignore_fields=(), max_leaves=6000):
+def compare(S_code, S_ref, limit=14, ignore_fields=(), max_leaves=6000, code_fields=None, ref_fields=None):
     """Return (n_cases, differences[:k]) - differences are (assignment, what, code, ref).
 
     The case split is made on demand: both behaviours are evaluated under a partial assignment of
     branch atoms; whenever either evaluation consults a condition the assignment does not decide, the
     assignment is split on that atom.  Every leaf is a set of literals under which both behaviours
     are fully determined; `limit` bounds the depth of the split by 2*limit atoms."""
-    A, B = Behaviour(S_code), Behaviour(S_ref)
+    A, B = Behaviour(S_code, fmap=code_fields), Behaviour(S_ref, fmap=ref_fields)
+    ignore_fields = set(ignore_fields) | set((code_fields or {}).get(f, f) for f in ignore_fields) | set((ref_fields or {}).get(f, f) for f in ignore_fields)
     diffs = []
     count = [0]
     deepest = [0]
